@@ -67,6 +67,9 @@ def cross_type_events(env, rng, thorough):
             ("FractionScalar(cat,x,v)", lambda: FractionScalar(ca, value=1.0, unit=ub)),
             ("FractionScalar<FractionScalar", lambda: fa < fb),
             ("FractionScalar.GetValue(v)", lambda: fa.GetValue(ub)),
+            ("Array(cat, [], u).GetValues(v): no values", lambda: Array(ca, [], ua).GetValues(ub)),
+            ("Array(cat, empty ndarray, u).GetValues(v)", lambda: Array(ca, __import__("numpy").array([]), ua).GetValues(ub)),
+            ("Array(cat, (), u).CreateCopy(unit=v)", lambda: Array(ca, (), ua).CreateCopy(unit=ub)),
             # a derived quantity in which a later category carries a unit of an earlier category's quantity type
             ("Quantity.CreateDerived({cat_a: [u_a, 1], cat_b: [u_a, 1]})", lambda: Quantity.CreateDerived(OrderedDict([(ca, [ua, 1]), (cb, [ua, 1])]))),
             ("Quantity.CreateDerived({cat_b: [u_b, 1], cat_a: [u_b, -2]})", lambda: Quantity.CreateDerived(OrderedDict([(cb, [ubc, 1]), (ca, [ubc, -2])]))),
@@ -195,7 +198,12 @@ def collision_events(rep, bd, env):
                 o = P.outcome(fn)
                 events.append({"op": "Reject", "call": "unit-string collision: " + name, "collision": [u, n, r], "from": [d.GetQuantityType(), u], "to": [other.quantity_type, r],
                                "family": "ok" if o[0] == "ok" else o[1], "cls": "" if o[0] == "ok" else o[2], "reg_pre": "", "reg_post": "", "ops_pre": "", "ops_post": ""})
-    rep.cov["unit_string_collisions"] = {"faithful (same dimension, exempt)": faithful, "naming another dimension": len(events) // 4}
+            # sums and orderings between the two are refused today and must stay so (not part of the listed finding)
+            for name, fn in (("<", lambda: dd < p), (">=", lambda: p >= dd), ("+", lambda: dd + p), ("-", lambda: p - dd), ("Array +", lambda: Array(dd.GetQuantity(), [1.0]) + Array(p.GetQuantity(), [1.0]))):
+                o = P.outcome(fn)
+                events.append({"op": "Reject", "call": "unit-string collision, sum or ordering: " + name, "from": [d.GetQuantityType(), u], "to": [other.quantity_type, r],
+                               "family": "ok" if o[0] == "ok" else o[1], "cls": "" if o[0] == "ok" else o[2], "reg_pre": "", "reg_post": "", "ops_pre": "", "ops_post": ""})
+    rep.cov["unit_string_collisions"] = {"faithful (same dimension, exempt)": faithful, "naming another dimension": len({tuple(e_["collision"]) for e_ in events if "collision" in e_})}
     return events
 
 
